@@ -95,7 +95,7 @@ Fixpoint stmt_pop (s : stmt) {struct s} : bool :=
   end.
 Fixpoint ends_pop (l : list stmt) : bool :=
   match l with
-  | [] => true
+  | [] => false
   | s :: r => match r with [] => stmt_pop s | _ :: _ => ends_pop r end
   end.
 
